@@ -162,10 +162,13 @@ def _event_key(r):
     try:
         d = json.loads(ev)
         d.pop("i", None)
-        if r.get("what") == "group" and "g" in d:
+        g = None
+        if r.get("what") == "group" and isinstance(d.get("g"), list) and r.get("k"):
             g = d["g"][r["k"] - 1]
-            return json.dumps([d.get("src"), d.get("in"), g.get("d"), g.get("res")])
-        return json.dumps(d, sort_keys=True)[:2000]
+        d.pop("g", None)
+        d.pop("post", None)
+        gk = [g.get(x) for x in ("d", "k", "res", "s")] if g else None
+        return json.dumps([d, gk], sort_keys=True)[:3000]
     except Exception:
         return ev[:500]
 
